@@ -87,6 +87,13 @@ def spellings():
     add("l_custom_with_path", I, "validate(with = vfn, error = MyErr)", "x < K")
     add("l_custom_error_first", I, "validate(error = MyErr, with = vfn)", "x < K")
     add("l_const_fn_first", I, "const_fn, validate(less = 7)", "x < 7")
+    # layouts the documented grammar refuses; if a tree accepts one, every written rule must still be enforced
+    add("l_mixed_with_no_error", I, "validate(less = 100, with = vfn)", "x < 100 && x < K")
+    add("l_mixed_with_error", I, "validate(less = 100, with = vfn, error = MyErr)", "x < 100 && x < K")
+    add("l_mixed_with_first", I, "validate(with = vfn, less = 100)", "x < 100 && x < K")
+    add("l_builtin_with_error_only", I, "validate(greater = 0, error = MyErr)", "x > 0")
+    add("l_dup_validator", I, "validate(less = 100, less = 10)", "x < 100 && x < 10")
+    add("l_both_lower", I, "validate(greater = 0, greater_or_equal = 5)", "x > 0 && x >= 5")
     return S
 
 
